@@ -18,7 +18,7 @@ PROPS_MODULE = 'QV.C11.Props'
 CORR_IMPORTS = ['QV.C11.Model', 'QV.C11.Corr']
 CHECK_CORR = 'check_corr'
 CHECK_SPEC = 'check_spec'
-SHARD = 60
+SHARD = 85
 RULE = ('one case = backend (dict / directory / zip / caching wrapper) x failure-free history on one PulseStorage '
         '(stores, clear, deletes) x final store / overwrite / delete, executed on the real code once without failure '
         'and once for EVERY mutating primitive (open-for-write, file write [raise or half-written], os.remove/rename/'
@@ -61,12 +61,12 @@ def run_impl(case, tier=None):
         with vlib.time_limit(180):
             modes = tuple(case.get('kill_modes', ('noflush', 'flush'))) if case.get('kill', True) else ()
             ra = impl.run_case(case, modes, real_kills=None if tier == 'thorough' else 2,
-                               validate=1 if tier == 'quick' else 2)
+                               validate=1 if tier == 'quick' else 2, cap=RAISE_CAP[tier])
             if 'error' in ra:
                 return {'crash': ra['error']}
             r0, runs = ra['r0'], ra['runs']
             crashes = []
-            for k, rk in enumerate(runs):
+            for k, rk in sorted(runs.items()):
                 if not rk['fired'] or rk['trace'][:k + 1] != r0['trace'][:k + 1]:
                     return {'crash': 'non-deterministic primitive sequence at k=%d' % k}
                 crashes.append({'k': k, 'prim': r0['trace'][k], 'wb': rk['writes_before'], 'outcome': rk['outcome'],
@@ -168,6 +168,7 @@ def ids_in(objs, tag, acc=None):
 # menu of children for the small-scope enumeration; the storage holds  n0 -> [n1, n2], n1, n2  (n3.. are unused)
 KID_MENU = ['newleaf', 'newtree', 'cached1', 'cached2', 'cached0', 'usedid', 'bad', 'dup', 'dupobj']
 ROOT_MODES = ['store_fresh', 'overwrite_fresh', 'overwrite_cached0', 'overwrite_cached1', 'store_used']
+# (the object that is cached under n0 / n3 itself, stored or overwritten once more: see same_object_cases)
 
 
 def cycle_case(backend, variant):
@@ -287,7 +288,7 @@ def hist_case(backend, variant, fault='raise'):
         H.append({'op': 'store', 't': s.obj(0, [l2, l1], wrap=[True, True])})
         final = {'op': 'overwrite', 't': s.obj(2, [s.obj(5)], shape=1)}
     elif variant == 6:    # the cache is cleared between delete and re-store
-        H += [{'op': 'clear'}, {'op': 'delete', 'id': 0}]
+        H += [{'op': 'clear', 'how': 'reopen'}, {'op': 'delete', 'id': 0}]
         n0 = s.obj(0, [s.obj(5)])
         H.append({'op': 'store', 't': n0})
         final = {'op': 'store', 't': s.obj(4, [n0, s.obj(6)])}
@@ -334,6 +335,25 @@ def overwrite_existing_cases(backends, rng):
     return out
 
 
+def same_object_cases(backends):
+    """re-registration with the SAME object: the cached object itself is stored again (no-op) / overwritten by itself
+    (re-serialized over its cached children) - with the cache intact, cleared, or replaced by a new PulseStorage"""
+    out = []
+    for b in backends:
+        for preset in (1, 2):
+            for op in ('store', 'overwrite'):
+                for how in (None, 'clear', 'reopen'):
+                    c = enum_case(b, preset, 'store_fresh', [], False)
+                    tags = {o['id']: int(t) for t, o in c['objs'].items()}
+                    del c['objs'][str(c['final']['t'])]
+                    if how:
+                        c['history'].append({'op': 'clear', 'how': how} if how == 'reopen' else {'op': 'clear'})
+                    c['final'] = {'op': op, 't': tags[3 if preset == 2 else 0]}
+                    c['note'] = 'same %s preset%d %s' % (op, preset, how or '')
+                    out.append(c)
+    return out
+
+
 def lowlevel_cases(tier):
     """zip archive written through proxied low-level file objects: every write of the archive writer (local headers,
     entry data, the central directory and end record written inside ZipFile.close()) fails / is a kill position"""
@@ -346,12 +366,12 @@ def lowlevel_cases(tier):
         for preset, rm, kinds, cleared in specs:
             c = enum_case('zip', preset, rm, kinds, cleared, fault)
             c['note'] = 'lowlevel ' + c['note'][5:]
-            c['lowlevel'] = True
+            c['lowlevel'] = c['all_positions'] = True
             out.append(c)
         c = enum_case('zip', 1, 'store_fresh', [], False, fault)
         c['final'] = {'op': 'delete', 'id': 0}
         c['note'] = 'lowlevel delete'
-        c['lowlevel'] = True
+        c['lowlevel'] = c['all_positions'] = True
         out.append(c)
     return out
 
@@ -407,7 +427,7 @@ def rand_case(rng, backend):
                 reusable.append(s.n)
     cleared = rng.random() < 0.25
     if cleared:
-        s.history.append({'op': 'clear'})
+        s.history.append({'op': 'clear', 'how': 'reopen'} if rng.random() < 0.4 else {'op': 'clear'})
         reusable = []
     mode = rng.choice(['overwrite', 'overwrite', 'store', 'store', 'delete', 'malformed'])
     if mode == 'delete' and used:
@@ -440,6 +460,7 @@ def add_post(case, rng):
 
 
 KILL_SHARE = {'quick': 0.2, 'thorough': 0.2}
+RAISE_CAP = {'quick': 24, 'thorough': None}     # see c11_impl.select_positions
 LOWLEVEL_SHARE = {'quick': 0.06, 'thorough': 0.1}
 
 
@@ -488,7 +509,8 @@ def _gen_cases(rng, tier, ctx):
                     if prewrite and not (tier == 'thorough' and len(kk) <= 2):
                         keep *= 0.25
                     for b in backends:
-                        if rng.random() < keep:
+                        # (a put into the archive copies the archive: the zip cases cost three times the others)
+                        if rng.random() < keep * (0.7 if b == 'zip' and tier == 'quick' and len(kk) == 2 else 1.0):
                             cases.append(enum_case(b, preset, rm, list(kk), cleared,
                                                    'partial' if rng.random() < 0.3 else 'raise'))
     # deletes on the preset storage
@@ -520,6 +542,7 @@ def _gen_cases(rng, tier, ctx):
             cases.append(hist_case(b, variant, 'partial' if (variant + len(b)) % 3 == 0 else 'raise'))
     cases.extend(overwrite_existing_cases(backends + ['cfs'], rng))
     cases.extend(lowlevel_cases(tier))
+    cases.extend(same_object_cases(backends + ['cfs']))
     # random templates on random storages
     for _ in range({'quick': 150, 'thorough': 2500}[tier]):
         cases.append(rand_case(rng, rng.choice(backends)))
@@ -547,12 +570,16 @@ def histogram_keys(case, obs):
     hops = [h['op'] for h in case['history']]
     if 'delete' in hops and any(o in ('store', 'overwrite') for o in hops[hops.index('delete'):]):
         keys.append('history:delete-then-store')
+    if any(h.get('how') == 'reopen' for h in case['history']):
+        keys.append('history:new-PulseStorage-object-takes-over')
     if case.get('kill') and case['backend'] != 'dict':
         keys.append('kill_flush_mode:' + '+'.join(case.get('kill_modes', [])))
     if 'crashes' in obs:
         n = len(obs['crashes'])
         keys.append('outcome:' + obs['outcome'])
         keys.append('crash_positions:' + ('0' if n == 0 else '1' if n == 1 else '2-4' if n <= 4 else '5-9' if n <= 9 else '10+'))
+        if n < len(obs['trace']):
+            keys.append('raise_positions:selected-subset')
         keys.append('stored_before:%d' % min(len(obs['before']['entries']), 6))
         for p in set(obs['trace']):
             keys.append('prim:' + p)
@@ -568,7 +595,7 @@ def histogram_keys(case, obs):
             keys.append('kill:process-really-killed-at-%s-positions' % ('1-2' if nreal <= 2 else '3+'))
     else:
         keys.append('obs:crash')
-    if case['note'].split()[0] in ('enum', 'order', 'hist', 'ow', 'lowlevel'):
+    if case['note'].split()[0] in ('enum', 'order', 'hist', 'ow', 'lowlevel', 'same'):
         keys.append('stream:' + case['note'].split()[0])
     elif case['note'].startswith('corpus'):
         keys.append('stream:corpus')
@@ -699,8 +726,8 @@ def _eval_findings(extra):
     keys = sorted(todo)
     workdir = os.path.join(vlib.BUILD, 'c11_classify.%d' % os.getpid())
     try:
-        for start in range(0, len(keys), 40):
-            chunk = keys[start:start + 40]
+        for start in range(0, len(keys), 120):
+            chunk = keys[start:start + 120]
             try:
                 txt = vlib.coq_eval(workdir, CORR_IMPORTS, 'map finding_of [%s]' % ';\n'.join(todo[k] for k in chunk))
                 codes = [int(x) for x in re.findall(r'(\d+)(?:%N)?', txt)]
